@@ -52,6 +52,21 @@ def hWlParse : Handler
     | none => some s!"{ret} {nks} -"
   | _ => none
 
+/-- `wl_parse_len bytes claimed_len` → as `wl_parse` for an input of `claimed_len` bytes whose first `1 + 32·(count+1)` bytes are
+    `bytes` (the harness refuses other buffers): the specified parser accepts exactly `claimed_len = 1 + 32·(count+1)`. -/
+def hWlParseLen : Handler
+  | [inp, l] => do
+    let b ← hex? inp
+    let len ← l.toNat?
+    match b with
+    | [] => none
+    | c :: _ =>
+      if b.length ≠ 1 + 32 * (c.toNat + 1) then none
+      else if len = b.length then hWlParse [inp]
+      else if len = 0 then some "0 u -"
+      else some s!"0 {c.toNat} -"
+  | _ => none
+
 /-- `wl_serialize sig_ser buflen` → `ret len buffer` (buffer pre-filled with 0xAA) | `parsefail` -/
 def hWlSerialize : Handler
   | [sg, bl] => do
@@ -82,9 +97,24 @@ def hWlMkAdv : Handler
       | some sig => some s!"1 {hx (wlSer sig)}"
   | _ => none
 
+/-- `wl_mk_advsec sec idx sub nonce / s… / keys` (Lean only): as `wl_mk_adv`, but the secret of ring key `idx` is given directly
+    (any scalar, also 0 — the discrete logarithm of a ring key that is the point at infinity, which anybody knows). -/
+def hWlMkAdvSec : Handler
+  | sec :: idx :: sub :: non :: "/" :: rest => do
+    let sc ← num32? sec; let i ← nat? idx; let sp ← ptNZ? sub; let k ← num32? non
+    let (sl, keys) ← splitAt? "/" rest
+    let s ← sl.mapM num32?
+    let (on, off) ← wlKeys? keys
+    if s.length ≠ on.length ∨ ¬ i < on.length then none else
+    let (msg32, pubs) := Whitelist.computeKeysAndMessage on off sp
+    match Whitelist.signWith msg32 pubs (sc % N) (k % N) (s.map (· % N)) i with
+    | none => some "0 -"
+    | some sig => some s!"1 {hx (wlSer sig)}"
+  | _ => none
+
 def whitelistHandlers : List (String × Handler) := [
-  ("wl_sign", hWlSign), ("wl_verify", hWlVerify), ("wl_parse", hWlParse), ("wl_serialize", hWlSerialize),
-  ("wl_mk_adv", hWlMkAdv)
+  ("wl_sign", hWlSign), ("wl_verify", hWlVerify), ("wl_parse", hWlParse), ("wl_parse_len", hWlParseLen), ("wl_serialize", hWlSerialize),
+  ("wl_mk_adv", hWlMkAdv), ("wl_mk_advsec", hWlMkAdvSec)
 ]
 
 end Driver
